@@ -22,7 +22,7 @@ def pool():
     floats = [0.5, -0.5, 1.5, 1.7, 2.0, 2.5, -2.5, 7.125, 0.1, 1e300, float(2 ** 53), -0.0, 1e-300,
               # neighbours: doubles that differ in the last places only (a tolerance instead of exact comparison shows here)
               123456789.01, 123456789.02, 1000000.001, 1000000.002, 0.30000000000000004, 0.3, 1.0000000000000002, 1.0, 4200000000.5, 4200000000.25]
-    texts = ['', 'a', 'A', 'B', 'abc', 'ABC', 'abd', '10', '9', ' 5', '1.5', '1e3', 'x1', '-3', 'b c', '0']
+    texts = ['', 'a', 'A', 'B', 'abc', 'ABC', 'abd', '10', '9', ' 5', '1.5', '1e3', 'x1', '-3', 'b c', '0', ' ', '   ']      # the last two: blanks only, yet not empty
     dates = [dt.datetime(2020, 1, 1), dt.datetime(2020, 1, 1, 12, 30), dt.date(2020, 1, 1), dt.date(2019, 12, 31),
              dt.datetime(1999, 12, 31, 23, 59, 59), dt.date(2024, 2, 29), dt.datetime(2024, 2, 29)]
     return [C.jenc(v) for v in ints + floats + texts + dates + [True, False]] + [E]
